@@ -69,6 +69,13 @@ PROGRAMS = [
     "import pa as _A__x\nclass A:\n    def m(self):\n        return __x.K\nprint(A().m())\n",
     "from pb import f\nfrom pa import *\nprint(f(1))\n",
     "from pa import K\nclass K:\n    y = K + 1\nprint(K.y)\n",
+    # round 4: a decorated coroutine directly after an import (the decorator call is observable); bare annotations of
+    # imported names (module level and class body) declare without binding; __all__ names a later re-import
+    "import pa\n@pa.f\nasync def co():\n    return 1\nprint(co)\n",
+    "import pb\nfrom pa import f\n@f\n@(lambda fn: fn)\nasync def co2():\n    return pb.n\nprint(co2)\n",
+    "from pa import K\nK: int\nprint(K)\n",
+    "from pa import K\nclass Fld:\n    K: int\n    y = K\nprint(Fld.y)\n",
+    "import pa\nfrom pa import f\n__all__ = ['f']\nV = (1, 0)\nfrom pb import f\nprint(pa.K)\n",
     # string annotation / f-string uses
     "from pa import C\ndef ann(x: 'C') -> 'C':\n    return x\nprint(ann(1), f'{C().m(1)}')\n",
 ]
